@@ -263,6 +263,8 @@ def expected_borders(tm, r: int, c: int) -> tuple:
 def check_look(sim: Sim, table, tm, where: str, what: str, reloaded: bool, cells=None, defaults=None) -> None:
     """Compare style and/or borders of the given cells (default: all) with the model."""
     sfx = "reloaded" if reloaded else "now"
+    if tm.__dict__.get("opaque_look"):
+        return
     data = table.rows()
     if cells is None:
         cells = [(r, c) for r in range(tm.nrows) for c in range(tm.ncols)]
@@ -369,6 +371,15 @@ def op_observe(sim: Sim, a) -> str:
     elif kind == "size":
         _ = table.height
         _ = table.width
+    elif kind == "labels":
+        got = {"name": table.name, "caption": table.caption, "caption_enabled": bool(table.caption_enabled), "name_enabled": bool(table.table_name_enabled),
+               "headers": (table.num_header_rows, table.num_header_cols)}
+        _ = tuple(table.coordinates)
+        if "geom" in sim.aspects:
+            want = {"name": tm.name, "caption": tm.caption, "caption_enabled": tm.caption_enabled, "name_enabled": tm.name_enabled, "headers": (tm.hdr_r, tm.hdr_c)}
+            for k, w in want.items():
+                if w is not None and got[k] != w:
+                    sim.violation("C16.set_values_now", {"what": k}, f"{where}: {k} reads {got[k]!r} on the open document, was set to {w!r}")
     elif kind == "formula":
         data = table.rows()
         for r, c in cells:
